@@ -46,7 +46,7 @@ def cases(ctx):
             if len(set(s["data"])) < 2:
                 s["data"][0] = 9
             c["params"] = cmdgen.gen_params(rng, cmd, 1, [v for v in s["data"]])
-        elif cmd in ("CvtToFuzzy", "Normalize", "CvtToBinary", "CvtFromFuzzy") and rng.random() < 0.15 and not c["inputs"][0]["dtype"].startswith("float"):
+        elif cmd not in ("NormalizeCat", "CvtToFuzzyCat") and rng.random() < 0.15 and not c["inputs"][0]["dtype"].startswith("float"):
             # narrow and unsigned integer fields whose values span most of the type's range (thresholds taken from the data
             # must not wrap around)
             s = c["inputs"][0]
@@ -60,7 +60,7 @@ def cases(ctx):
                     s["mask"][0] = s["mask"][-1] = False
             if cmd == "CvtFromFuzzy":
                 s["dtype"], s["data"] = "int8", [rng.choice([-1, 0, 1]) for _ in s["data"]]
-            c["params"] = {k_: v_ for k_, v_ in cmdgen.gen_params(rng, cmd, 1, None).items() if k_ in ("Direction",)} if cmd == "CvtToFuzzy" else ({} if cmd == "Normalize" else cmdgen.gen_params(rng, cmd, 1, [float(v) for v in s["data"]]))
+            c["params"] = {k_: v_ for k_, v_ in cmdgen.gen_params(rng, cmd, 1, None).items() if k_ in ("Direction",)} if cmd == "CvtToFuzzy" else ({} if cmd == "Normalize" else cmdgen.gen_params(rng, cmd, 1, [float(v) for v in s["data"]] if "Curve" not in cmd or "ZScore" in cmd else [float(v) for v in sorted(set(s["data"]))]))
             c["narrow"] = dt_
         elif cmd in ("NormalizeCat", "CvtToFuzzyCat") and rng.random() < 0.3:
             # category codes that are large and adjacent (land-cover / watershed codes), or float codes a hair apart: a category
